@@ -304,6 +304,68 @@ func init() {
 		p.Transfer = tp
 	}, Run: func(env *Env, p *Plan) { RunTransfer(env, p.Transfer) }})
 
+	// C17: every configured limit under swarm load (see limits.go)
+	Register(&Scenario{Name: "limits", Gen: func(r *simrt.Rand, tier string, p *Plan) {
+		tp := genTransferBase(r, tier)
+		np := numPiecesOf(tp.Layout)
+		k := &tp.K
+		k.MaxPeerDial, k.MaxPeerAccept = r.Range(1, 4), r.Range(1, 4)
+		k.MaxPeerAddresses = r.Range(2, 20)
+		k.WebseedMaxSources, k.WebseedMaxDownloads = r.Range(1, 3), r.Range(1, 2)
+		k.WriteCacheSize = int64(r.Range(1, 4)) * int64(tp.Layout.PieceLen)
+		k.ReadCacheSize = int64(simrt.Pick(r, []int{64 << 10, 256 << 10, 1 << 20}))
+		k.ReadCacheBlockSize = int64(simrt.Pick(r, []int{16 << 10, 32 << 10, 64 << 10}))
+		k.ParallelReads = uint(r.Range(1, 2))
+		k.PeerHandshakeTimeout = r.Dur(2*time.Second, 10*time.Second)
+		if r.Chance(0.5) {
+			k.SpeedLimitDownload = int64(r.Range(8, 256))
+		}
+		if r.Chance(0.5) {
+			k.SpeedLimitUpload = int64(r.Range(8, 256))
+		}
+		if r.Chance(0.5) {
+			k.MaxRequestsIn = r.Range(1, 20)
+		}
+		k.UnchokedPeers = r.Range(1, 3)
+		tp.PreSeeded = r.Chance(0.4)
+		tp.FaultsStop = r.Dur(40*time.Second, 100*time.Second)
+		tp.Bound = 60 * time.Second
+		tp.Liveness = false
+		n := r.Range(3, 9)
+		for i := 0; i < n; i++ {
+			ps := honestPeer(r, tp.Layout, fmt.Sprintf("h%d", i), np)
+			ps.Mode = simrt.Pick(r, []string{"dial", "listen"})
+			ps.Via = "manual"
+			ps.At = r.Dur(0, tp.FaultsStop/2)
+			ps.Redial = r.Dur(time.Second, 10*time.Second)
+			if tp.PreSeeded || r.Chance(0.3) {
+				ps.B.Leech, ps.B.LeechInterested, ps.B.LeechPipeline = true, true, r.Range(1, 40)
+				if tp.PreSeeded {
+					ps.B.Have = refbt.NewBits(np)
+				}
+			}
+			if r.Chance(0.3) {
+				ps.B.DisconnectAfterBlocks = r.Range(1, 30)
+			}
+			tp.Peers = append(tp.Peers, ps)
+		}
+		if !tp.PreSeeded {
+			for i := 0; i < r.Range(0, 5); i++ {
+				tp.Webseeds = append(tp.Webseeds, WebseedSpec{Name: fmt.Sprintf("w%d", i), Mode: "honest", Honest: true})
+			}
+		}
+		ls := &LimitsSpec{Balance: r.Chance(0.6), BogusAddrs: simrt.Pick(r, []int{0, 5, 60})}
+		for i := 0; i < r.Range(0, 4); i++ {
+			ls.BadHS = append(ls.BadHS, BadHSSpec{Name: fmt.Sprintf("x%d", i), Mode: simrt.Pick(r, []string{"dial", "dial", "listen"}), Kind: simrt.Pick(r, []string{"silent", "garbage", "wronghash", "slow", "close"}), At: r.Dur(0, tp.FaultsStop/2), N: r.Range(1, 4)})
+		}
+		if tp.PreSeeded && r.Chance(0.6) {
+			ls.Flood = simrt.Pick(r, []int{60, 300})
+			ls.FloodFast = r.Chance(0.5)
+		}
+		tp.Limits = ls
+		p.Transfer = tp
+	}, Run: func(env *Env, p *Plan) { RunTransfer(env, p.Transfer) }})
+
 	// C09: piece-picker stress: a swarm of partial, stalling, choking peers contending for few
 	// pieces, some piece held by nobody for a long time (no end game), tiny duplicate limits.
 	Register(&Scenario{Name: "picker", Gen: func(r *simrt.Rand, tier string, p *Plan) {
